@@ -1,3 +1,230 @@
 package sym
 
-func (ex *Exec) initBigIntrinsics() {}
+import (
+	"math/big"
+
+	"golang.org/x/tools/go/ssa"
+)
+
+const bigMaxBytes = 23 // magnitudes below 2^184 keep every modelled operation inside 192 signed bits
+
+func (st *State) bigLoad(p Value) *Term {
+	ptr := p.(Ptr)
+	if ptr.IsNil() {
+		st.ex.runtimePanic("invalid memory address or nil pointer dereference")
+	}
+	v := st.load(ptr)
+	b, ok := v.(BigV)
+	if !ok {
+		panic(abort{"internal", "big.Int pointer does not point to a BigV"})
+	}
+	return b.T
+}
+
+func (st *State) bigStore(p Value, t *Term) Value {
+	st.store(p.(Ptr), BigV{T: t})
+	return p
+}
+
+func (ex *Exec) bigConst(x *big.Int) *Term {
+	if x.Sign() >= 0 {
+		return ex.Ctx.BVBig(bigW, x)
+	}
+	m := new(big.Int).Lsh(big.NewInt(1), bigW)
+	return ex.Ctx.BVBig(bigW, m.Add(m, x))
+}
+
+func (ex *Exec) bigToGo(t *Term) *big.Int {
+	v := new(big.Int).Set(t.constBig())
+	if v.Bit(bigW-1) == 1 {
+		v.Sub(v, new(big.Int).Lsh(big.NewInt(1), bigW))
+	}
+	return v
+}
+
+func (ex *Exec) bigAbs(t *Term) *Term {
+	c := ex.Ctx
+	neg := c.Slt(t, c.BV(bigW, 0))
+	return c.Ite(neg, c.Neg(t), t)
+}
+
+func (ex *Exec) bigNeg(t *Term) *Term {
+	c := ex.Ctx
+	if t.IsConst() {
+		return ex.bigConst(new(big.Int).Neg(ex.bigToGo(t)))
+	}
+	return c.Sub(c.BV(bigW, 0), t)
+}
+
+// bigBitLen returns the bit length of |t| as a 64-bit term.
+func (ex *Exec) bigBitLen(t *Term) *Term {
+	c := ex.Ctx
+	a := ex.bigAbs(t)
+	if a.IsConst() {
+		return ex.i64(int64(a.constBig().BitLen()))
+	}
+	res := ex.i64(0)
+	for i := 0; i < bigW; i++ {
+		bit := c.Eq(c.Extract(a, i, i), c.BV(1, 1))
+		res = c.Ite(bit, ex.i64(int64(i+1)), res)
+	}
+	return res
+}
+
+func (ex *Exec) initBigIntrinsics() {
+	c := ex.Ctx
+	in := ex.intrinsics
+	zero := func() *Term { return c.BV(bigW, 0) }
+	newBig := func(st *State, t *Term) Value {
+		bt := ex.Prog.ImportedPackage("math/big").Type("Int").Type()
+		id := st.alloc(BigV{T: t}, bt)
+		return Ptr{Obj: id}
+	}
+	in["math/big.NewInt"] = func(ex *Exec, st *State, args []Value, site ssa.CallInstruction) Value {
+		return newBig(st, c.SExt(args[0].(*Term), bigW-64))
+	}
+	in["(*math/big.Int).Set"] = func(ex *Exec, st *State, args []Value, site ssa.CallInstruction) Value {
+		return st.bigStore(args[0], st.bigLoad(args[1]))
+	}
+	in["(*math/big.Int).SetInt64"] = func(ex *Exec, st *State, args []Value, site ssa.CallInstruction) Value {
+		return st.bigStore(args[0], c.SExt(args[1].(*Term), bigW-64))
+	}
+	in["(*math/big.Int).SetUint64"] = func(ex *Exec, st *State, args []Value, site ssa.CallInstruction) Value {
+		return st.bigStore(args[0], c.ZExt(args[1].(*Term), bigW-64))
+	}
+	in["(*math/big.Int).SetBytes"] = func(ex *Exec, st *State, args []Value, site ssa.CallInstruction) Value {
+		s := args[1].(SliceV)
+		if s.Obj == 0 {
+			return st.bigStore(args[0], zero())
+		}
+		if !st.decide(c.Sle(s.Len, ex.i64(bigMaxBytes))) {
+			unsupported("big.Int.SetBytes with more than %d bytes is outside the 192-bit model", bigMaxBytes)
+		}
+		n := st.ubLen(s, s.Len)
+		if n > bigMaxBytes {
+			n = bigMaxBytes
+		}
+		cells := st.termCells(s, n)
+		v := zero()
+		for i, cell := range cells {
+			nv := c.BOr(c.Shl(v, c.BV(bigW, 8)), c.ZExt(cell, bigW-8))
+			v = c.Ite(c.Slt(ex.i64(int64(i)), s.Len), nv, v)
+		}
+		return st.bigStore(args[0], v)
+	}
+	in["(*math/big.Int).Bytes"] = func(ex *Exec, st *State, args []Value, site ssa.CallInstruction) Value {
+		t := st.bigLoad(args[0])
+		a := ex.bigAbs(t)
+		bl := ex.bigBitLen(t)
+		nb := c.LShr(c.Add(bl, ex.i64(7)), ex.i64(3))
+		n := int(st.concretize(nb, bigW/8+1))
+		vals := make([]Value, n)
+		for i := 0; i < n; i++ {
+			lo := (n - 1 - i) * 8
+			vals[i] = c.Extract(a, lo+7, lo)
+		}
+		return st.sliceFromValues(nil, vals)
+	}
+	in["(*math/big.Int).Sign"] = func(ex *Exec, st *State, args []Value, site ssa.CallInstruction) Value {
+		t := st.bigLoad(args[0])
+		return c.Ite(c.Slt(t, zero()), ex.i64(-1), c.Ite(c.Eq(t, zero()), ex.i64(0), ex.i64(1)))
+	}
+	in["(*math/big.Int).BitLen"] = func(ex *Exec, st *State, args []Value, site ssa.CallInstruction) Value {
+		return ex.bigBitLen(st.bigLoad(args[0]))
+	}
+	bin := func(f func(a, b *Term) *Term) intrinsic {
+		return func(ex *Exec, st *State, args []Value, site ssa.CallInstruction) Value {
+			return st.bigStore(args[0], f(st.bigLoad(args[1]), st.bigLoad(args[2])))
+		}
+	}
+	in["(*math/big.Int).Add"] = bin(func(a, b *Term) *Term { return c.Add(a, b) })
+	in["(*math/big.Int).Sub"] = bin(func(a, b *Term) *Term { return c.Sub(a, b) })
+	in["(*math/big.Int).Mul"] = bin(func(a, b *Term) *Term {
+		if !(a.IsConst() && b.IsConst()) {
+			unsupported("big.Int.Mul of symbolic values")
+		}
+		return ex.bigConst(new(big.Int).Mul(ex.bigToGo(a), ex.bigToGo(b)))
+	})
+	in["(*math/big.Int).Neg"] = func(ex *Exec, st *State, args []Value, site ssa.CallInstruction) Value {
+		return st.bigStore(args[0], ex.bigNeg(st.bigLoad(args[1])))
+	}
+	in["(*math/big.Int).Abs"] = func(ex *Exec, st *State, args []Value, site ssa.CallInstruction) Value {
+		return st.bigStore(args[0], ex.bigAbs(st.bigLoad(args[1])))
+	}
+	in["(*math/big.Int).Lsh"] = func(ex *Exec, st *State, args []Value, site ssa.CallInstruction) Value {
+		x := st.bigLoad(args[1])
+		n := args[2].(*Term)
+		if !st.decide(c.Ule(n, ex.i64(8*bigMaxBytes))) {
+			unsupported("big.Int.Lsh by more than %d bits is outside the 192-bit model", 8*bigMaxBytes)
+		}
+		return st.bigStore(args[0], c.Shl(x, c.ZExt(n, bigW-64)))
+	}
+	in["(*math/big.Int).Rsh"] = func(ex *Exec, st *State, args []Value, site ssa.CallInstruction) Value {
+		x := st.bigLoad(args[1])
+		n := args[2].(*Term)
+		return st.bigStore(args[0], c.AShr(x, c.ZExt(n, bigW-64)))
+	}
+	in["(*math/big.Int).Cmp"] = func(ex *Exec, st *State, args []Value, site ssa.CallInstruction) Value {
+		a, b := st.bigLoad(args[0]), st.bigLoad(args[1])
+		return c.Ite(c.Slt(a, b), ex.i64(-1), c.Ite(c.Eq(a, b), ex.i64(0), ex.i64(1)))
+	}
+	in["(*math/big.Int).Int64"] = func(ex *Exec, st *State, args []Value, site ssa.CallInstruction) Value {
+		return c.Extract(st.bigLoad(args[0]), 63, 0)
+	}
+	in["(*math/big.Int).Uint64"] = func(ex *Exec, st *State, args []Value, site ssa.CallInstruction) Value {
+		return c.Extract(ex.bigAbs(st.bigLoad(args[0])), 63, 0)
+	}
+	in["(*math/big.Int).IsInt64"] = func(ex *Exec, st *State, args []Value, site ssa.CallInstruction) Value {
+		t := st.bigLoad(args[0])
+		return c.Eq(c.SExt(c.Extract(t, 63, 0), bigW-64), t)
+	}
+	in["(*math/big.Int).IsUint64"] = func(ex *Exec, st *State, args []Value, site ssa.CallInstruction) Value {
+		t := st.bigLoad(args[0])
+		return c.Eq(c.ZExt(c.Extract(t, 63, 0), bigW-64), t)
+	}
+	in["(*math/big.Int).String"] = func(ex *Exec, st *State, args []Value, site ssa.CallInstruction) Value {
+		if p := args[0].(Ptr); p.IsNil() {
+			return conStr("<nil>")
+		}
+		t := st.bigLoad(args[0])
+		if !t.IsConst() {
+			return conStr("‹big›")
+		}
+		return conStr(ex.bigToGo(t).String())
+	}
+	in["(*math/big.Int).SetString"] = func(ex *Exec, st *State, args []Value, site ssa.CallInstruction) Value {
+		s := args[1].(StrV)
+		base := args[2].(*Term)
+		if !s.Conc || !base.IsConst() {
+			unsupported("big.Int.SetString on symbolic string")
+		}
+		v, ok := new(big.Int).SetString(s.S, int(base.V))
+		if !ok {
+			return TupleV{Ptr{}, c.False}
+		}
+		if v.BitLen() > 8*bigMaxBytes {
+			unsupported("big.Int.SetString value beyond the 192-bit model")
+		}
+		st.bigStore(args[0], ex.bigConst(v))
+		return TupleV{args[0], c.True}
+	}
+	in["(*math/big.Int).Exp"] = func(ex *Exec, st *State, args []Value, site ssa.CallInstruction) Value {
+		x, y := st.bigLoad(args[1]), st.bigLoad(args[2])
+		var m *big.Int
+		if p := args[3].(Ptr); !p.IsNil() {
+			mt := st.bigLoad(args[3])
+			if !mt.IsConst() {
+				unsupported("big.Int.Exp with symbolic modulus")
+			}
+			m = ex.bigToGo(mt)
+		}
+		if !x.IsConst() || !y.IsConst() {
+			unsupported("big.Int.Exp of symbolic values")
+		}
+		r := new(big.Int).Exp(ex.bigToGo(x), ex.bigToGo(y), m)
+		if r.BitLen() > 8*bigMaxBytes {
+			unsupported("big.Int.Exp result beyond the 192-bit model")
+		}
+		return st.bigStore(args[0], ex.bigConst(r))
+	}
+}
